@@ -139,6 +139,25 @@ def pc_hiding(case, lo):
                 if k < int(h) + 2:
                     fails.append("%s polynomial %d (%s): %s blinding polynomial has %d coefficients for hiding bound %s (needs %d)"
                                  % (sch, i, case.meta["shapes"][i], "shifted" if part == "srand" else "unshifted", k, h, int(h) + 2))
+    # PST13: the blinding polynomial (from the commitment state) has at least h+2 coefficients, univariate monomials only,
+    # none when the polynomial is not hiding
+    if sch == "pst13":
+        for i in range(n):
+            v = lo.get("blind.%d" % i)
+            if v is None:
+                continue
+            h = case.fields["hiding.%d" % i][0]
+            toks = [] if v[1] == ["zero"] else v[1]
+            if h == "none":
+                if toks:
+                    fails.append("pst13 polynomial %d (%s): a commitment without hiding bound carries a blinding polynomial of %d terms"
+                                 % (i, case.meta["shapes"][i], len(toks)))
+                continue
+            if len(toks) < int(h) + 2:
+                fails.append("pst13 polynomial %d (%s, %s variables): blinding polynomial has %d coefficients for hiding bound %s (needs %d)"
+                             % (i, case.meta["shapes"][i], case.fields["num_vars"][0], len(toks), h, int(h) + 2))
+            if any("*" in t.split(":", 1)[1] for t in toks):
+                fails.append("pst13 polynomial %d: blinding polynomial has a mixed monomial (the committer key only blinds univariate powers)" % i)
     r = lib_s(lo, "commit_without_rng")
     if any(hid) and r == "ok":
         fails.append("%s commit with a hiding bound and no RNG returned commitments" % sch)
